@@ -1,5 +1,5 @@
 -- GENERATED from /repo by harness/props/c01.py (gen_tables); do not edit
 namespace Pkgcore.Generated.C01
-def suffixValue : List (String × Int) := [("alpha", -4), ("beta", -3), ("pre", -2), ("rc", -1), ("p", 0)]
+def suffixValue : List (String × Int) := [("pre", -2), ("p", 1), ("alpha", -4), ("beta", -3), ("rc", -1)]
 def str2op : List (String × List Int) := [("<", [-1]), ("<=", [-1, 0]), ("=", [0]), (">=", [0, 1]), (">", [1])]
 end Pkgcore.Generated.C01
